@@ -4,6 +4,7 @@
 -/
 import VrlProofs.Props.C03
 import VrlProofs.Lemmas.C03Union
+import VrlProofs.Lemmas.C03KindOf
 
 namespace C03
 open Spec
@@ -56,6 +57,42 @@ theorem values_sound_partial (E : Env) (as : ASlots) (vs : Slots) (td : TD) (c :
       intro j x hj
       obtain ⟨q, hq⟩ := getN_valuesL m j x hj col hmm
       exact mem_reducedKind hs hi hq
+
+/-- the hypotheses of `values_sound_partial` hold for every literal object. -/
+theorem valuesOk_lit (m : VMap) (hs : m.Sorted = true) : valuesOk (Value.kindOf (.obj m)) = true := by
+  have hg := kindOf_good (.obj m) (by simpa [Value.Sorted] using hs)
+  have hc : objectCol (Value.kindOf (.obj m)) = Col.ofKnown (VMap.kinds m) := rfl
+  unfold valuesOk
+  simp only [hc, Bool.and_eq_true, Bool.not_eq_true']
+  have hcs : (Col.ofKnown (VMap.kinds m)).SortedK = true := by
+    have := hg.1; simpa [Value.kindOf, Kind.ofObject, Kind.SortedK, OCol.SortedK] using this
+  have hci : (Col.ofKnown (VMap.kinds m)).hasNonAnyInf = false := by
+    have := hg.2; simpa [Value.kindOf, Kind.ofObject, Kind.hasNonAnyInf, OCol.hasNonAnyInf] using this
+  refine ⟨⟨hcs, hci⟩, ofKindOk_of_noUndef ?_⟩
+  have hU : NoUndef (Col.ofKnown (VMap.kinds m)).unknownKind.withoutUndefined :=
+    noUndef_withoutUndefined _
+  simp only [Col.reducedKind, Col.ofKnown, Col.known]
+  cases hk : VMap.kinds m with
+  | nil => exact noUndef_union rfl (by simpa [Col.ofKnown, hk] using hU)
+  | cons k v rest =>
+    have hall := all_noUndef_kinds m
+    rw [hk] at hall
+    simp only [KList.all, Bool.and_eq_true, Bool.not_eq_true'] at hall
+    have : NoUndef (unionAll v rest) := noUndef_unionAll rest v hall.1
+      (fun q K hq => by
+        have := KList.all_of_get _ rest hall.2 q K hq
+        simpa [NoUndef] using this) hall.2
+    exact noUndef_union this (by simpa [Col.ofKnown, hk] using hU)
+
+
+/-- **`values({…literal…})`: every literal object satisfies the hypotheses.** -/
+theorem values_lit_sound (E : Env) (m : VMap) (vs : Slots) (td : TD)
+    (c : Call .values [some (.lit (.obj m))] vs td) : SoundAt E .values [some (.lit (.obj m))] vs td := by
+  apply values_sound_partial E _ vs td c
+  have hs : m.Sorted = true := by
+    have := (litsSorted_head c.lits).1 _ rfl
+    simpa [Value.Sorted] using this
+  exact valuesOk_lit m hs
 
 /-- hypotheses of `push_dyn_sound`: the array kind has no known index and no exact length, the
     kinds satisfy the C19 union hypotheses, `Unknown::from` does not turn the union into `json`. -/
@@ -156,6 +193,87 @@ theorem push_lit_sound (E : Env) (a : VList) (a1 : Arg) (vs : Slots) (td : TD)
     · have := Spec.kindsFrom_get_idx a' 0 k K' hg
       omega
 
+theorem getN_append : (a b : VList) → (j : Nat) → (y : Value) → (a.append b).getN j = some y →
+    (∃ j', a.getN j' = some y) ∨ (∃ j', b.getN j' = some y)
+  | .nil, b, j, y, h => Or.inr ⟨j, by simpa [VList.append] using h⟩
+  | .cons v vs, b, 0, y, h => Or.inl ⟨0, by simpa [VList.append, VList.getN] using h⟩
+  | .cons v vs, b, j + 1, y, h => by
+    simp only [VList.append, VList.getN] at h
+    rcases getN_append vs b j y h with ⟨j', hj⟩ | ⟨j', hj⟩
+    · exact Or.inl ⟨j' + 1, by simpa [VList.getN] using hj⟩
+    · exact Or.inr ⟨j', hj⟩
+
+theorem appendV_ok {v w r : Value} (h : appendV v w = .ok r) :
+    ∃ a b, v = .arr a ∧ w = .arr b ∧ r = .arr (a.append b) := by
+  cases v <;> cases w <;> simp only [appendV] at h <;> try (cases h)
+  exact ⟨_, _, rfl, rfl, rfl⟩
+
+/-- hypotheses of `append_dyn_sound`: `value`'s array kind has no known index and no exact length;
+    both collections satisfy the C19 union hypotheses. -/
+def appendDynOk (k0 k1 : Kind) : Bool :=
+  let c := arrayCol k0
+  let d := arrayCol k1
+  c.known.isEmpty && c.exactLength.isNone && c.SortedK && !c.hasNonAnyInf && d.SortedK &&
+    !d.hasNonAnyInf && ofKindOk (c.unknownKind.union d.reducedKind)
+
+theorem good_reducedKind {c : Col} (hs : c.SortedK = true) (hi : c.hasNonAnyInf = false) :
+    Good c.reducedKind := by
+  have hU := good_withoutUndefined (good_unknownKind hs hi)
+  cases c with
+  | mk known u =>
+    obtain ⟨_, hks, _⟩ := col_sortedK hs
+    obtain ⟨hki, _⟩ := col_infAny hi
+    cases known with
+    | nil => exact good_union good_never hU
+    | cons k v rest =>
+      simp only [KList.SortedK, Bool.and_eq_true] at hks
+      simp only [KList.hasNonAnyInf, Bool.or_eq_false_iff] at hki
+      exact good_union (unionAll_good rest v ⟨hks.1, hki.1⟩ hks.2 hki.2) hU
+
+/-- **`append(value, items)` when `value`'s array kind has no known index (`.p`, `any`): the
+    union of all element kinds of `items` is merged into the unknown element kind.** (`append` onto
+    an array of exactly known length shifts the known indices of `items`: not covered.) -/
+theorem append_dyn_sound (E : Env) (as : ASlots) (vs : Slots) (td : TD) (c : Call .append as vs td)
+    (hk : appendDynOk (akind as 0) (akind as 1) = true) : SoundAt E .append as vs td := by
+  intro r hr
+  rw [decl_kind c.decl]
+  simp only [model] at hr
+  obtain ⟨v, w, rfl, hr⟩ := bin_ok hr
+  obtain ⟨a, b, rfl, rfl, rfl⟩ := appendV_ok hr
+  refine ⟨memR_of_mem ?_, by mask_tac⟩
+  have hm := head_mem c
+  have hmb := tail_mem c
+  simp only [appendDynOk, Bool.and_eq_true, Bool.not_eq_true'] at hk
+  obtain ⟨⟨⟨⟨⟨⟨hkn, hex⟩, hs⟩, hi⟩, hds⟩, hdi⟩, hok⟩ := hk
+  have hm' := hm
+  rw [mem_arr_iff] at hm'
+  obtain ⟨col, hcol, _, _⟩ := hm'
+  have hmb' := hmb
+  rw [mem_arr_iff] at hmb'
+  obtain ⟨dol, hdol, hb1, _⟩ := hmb'
+  have hac : arrayCol (akind as 0) = col := by rw [arrayCol, hcol]
+  have hbc : arrayCol (akind as 1) = dol := by rw [arrayCol, hdol]
+  rw [hac] at hkn hex hs hi hok
+  rw [hbc] at hds hdi hok
+  have hknil : col.known = .nil := by
+    cases hkk : col.known with
+    | nil => rfl
+    | cons _ _ _ => simp [hkk, KList.isEmpty] at hkn
+  have hexn : col.exactLength = none := by
+    cases he : col.exactLength with
+    | none => rfl
+    | some _ => simp [he] at hex
+  have hU : Good col.unknownKind := good_unknownKind hs hi
+  have hR : Good dol.reducedKind := good_reducedKind hds hdi
+  simp only [declaredFn, hac, hbc, appendCol, hexn, Col.setUnknown, hknil]
+  apply mem_arr_unknownOnly _ _ hok
+  intro j y hj
+  rcases getN_append a b j y hj with ⟨j', hg⟩ | ⟨j', hg⟩
+  · have he := mem_elem_of_noKnown hm hcol hknil hg
+    apply mem_union_l hU hR
+    simp only [Col.unknownKind, mem_unknown_toKind]; exact he
+  · exact mem_union_r hU hR (mem_reducedKind hds hdi (hb1 j' y hg))
+
 /-! ### the claim for all modelled functions at once -/
 
 /-- **finding classes of clauses (a)/(k)**, decidable on the argument kinds of the call:
@@ -166,9 +284,11 @@ theorem push_lit_sound (E : Env) (a : VList) (a1 : Arg) (vs : Slots) (td : TD)
     * `values`, `push`: outside the hypotheses of C19's union theorem (`valuesOk`, `pushDynOk`;
       they hold for `any`, for literals and for every kind without `json` unknowns); `push` onto a
       literal array is covered without condition;
-    * `append`, `merge`: no theorem — their type_defs are `Kind::merge` / index-shifted inserts, whose
-      soundness is C19's with C19's own finding classes (`merge` with `deep: true` is violated:
-      `W.witness_merge_deep`). For these two the claim rests on the sweep oracle only. -/
+    * `append`: `value` with known indices / exactly known length (the known indices of `items` are
+      shifted: not covered), or outside the union hypotheses (`appendDynOk`);
+    * `merge`: no theorem — its type_def is `Kind::merge(overwrite)`, whose soundness is C19's with
+      C19's own finding classes, and it ignores `deep` (`W.witness_merge_deep`). For `merge` the claim
+      rests on the sweep oracle only. -/
 def isLitArray : ASlots → Bool
   | [some (.lit (.arr _)), some _] => true
   | _ => false
@@ -183,7 +303,8 @@ def soundClass (F : Fn) (as : ASlots) : Bool :=
   | .compact | .flatten => !(k0.isArray || !k0.hasArr)
   | .values => !valuesOk k0
   | .push => !(isLitArray as || pushDynOk k0 (akind as 1))
-  | .append | .merge => true
+  | .append => !appendDynOk k0 (akind as 1)
+  | .merge => true
   | _ => false
 
 /-- **C03 (a)+(k), what holds: for every modelled function, every call the compiler accepts and all
@@ -225,7 +346,7 @@ theorem sound_partial (E : Env) (F : Fn) (as : ASlots) (vs : Slots) (td : TD) (c
       · exact push_lit_sound E _ _ vs td c
       · cases h
     · exact push_dyn_sound E as vs td c h
-  case append => simp [soundClass] at h
+  case append => exact append_dyn_sound E as vs td c (by simpa [soundClass] using h)
   case values => exact values_sound_partial E as vs td c (by simpa [soundClass] using h)
   case merge => simp [soundClass] at h
   case array => exact array_sound E as vs td c
